@@ -7,16 +7,18 @@
     found for every probe in a real repository freshly loaded with the rule sets
     the implementation has accepted so far.
 
-    [v_corr]  the transcribed tree (C06/Tree.v) gives exactly these outcomes and
-              answers, for the history and for the fresh load; outside the guards
-              of C06-F3 / C06-F5 the abstract index (C06/Model.v, the one the
-              theorems are about) gives them too.
-    [v_prop]  the property on the implementation's observation, for every prefix:
-              the operation was accepted iff the specification says it can be
-              applied; the answers of the history repository equal the answers of
-              the implementation's own fresh repository, and equal the answers of
-              a fresh load of the specification's current rule sets.
-              (Histories that create an existing rule set are not judged.) *)
+    [v_corr]  the transcribed tree (C06/Tree.v) gives the same outcome class
+              (applied / rejected / crashed) and the same answers, for the history
+              and for the fresh load; so does the abstract index (C06/Model.v) —
+              except, for a tree with the repair of C06-F3 / C06-F5 reverted, inside
+              the guards of those two findings.
+    [v_prop]  the property on the implementation's observation, judged for every
+              prefix up to (excluding) the first re-creation of an existing rule
+              set: the operation was accepted iff the specification says it can be
+              applied; the implementation's own fresh load of what it holds
+              succeeded; the history repository and that fresh repository find the
+              same rule and leave the same captures in the request, for every
+              probe.  No model is part of this predicate. *)
 From HV Require Export Base.Prelude C06.Pat C06.Model C06.Spec C06.Tree.
 
 Record step_obs := { o_res : option err; o_hist : list (option nat); o_fresh_ok : bool; o_fresh : list (option nat);
@@ -42,7 +44,7 @@ Definition res_eqb_m (m o : option err) : bool :=
   res_eqb m (match o with Some EPanic => Some EDelete | x => x end).
 
 Section Eval.
-Variable faithful : bool.   (* false: lookups as the code is now; true: as in the pinned commit (C02-F1) *)
+Variable faithful : bool.   (* false: lookups as the code is now; true: as before e897fef (C02-F1) *)
 Variable fx : fixes.        (* which of fixes/C06-F3/F4/F5.diff the implementation contains *)
 Variable f6 : bool.         (* fixes/C06-F6.diff: the processor refuses rule sets with a duplicate rule id *)
 
@@ -138,7 +140,7 @@ Fixpoint walk (probes : list (nat * str)) (ops : list op) (obs : list step_obs)
                Bool.eqb fok (o_fresh_ok ob) && ans_eqb (t_answers (index fr) probes) (o_fresh ob)) in
     let cm := bl || (res_eqb_m mres (o_res ob) && ans_eqb (m_answers (index mr') probes) (o_hist ob)) in
     let ill' := ill || match o with Add s _ => has_set Sspec s | _ => false end in
-    let dup' := dup || dupid_set (op_set o) || (negb (fix_F4 fx) && f4_set (op_set o)) in
+    let dup' := dup || dupid_set (op_set o) in
     let d1' := dirty1_step Sspec o d1 in
     let d2' := dirty2_step Sspec o d2 in
     let pr := Bool.eqb (is_ok (o_res ob)) (spec_ok Sspec o) &&
